@@ -235,7 +235,7 @@ func TestC19Conc(t *testing.T) {
 	rec.Rule("case = (ids) 16 goroutines creating ids for a few ssids concurrently: uniqueness by set, order by an atomic ticket drawn before/after each call (created-after => sorts before, same ssid); " +
 		"(peer) a real cluster.Peer over a recording sender with its ticker cancelled, 2-16 sender goroutines and exactly one flusher goroutine calling the queue processor at seeded instants; the transport reports an error for every n-th hand-over in a third of the cases, and in a sixth the payloads are a megabyte each so that one flush is split at the 10 MB bound; after joining and one final flush the recorder must hold, per sender goroutine, exactly its messages in order, once each; (encode) 8-24 goroutines round-tripping their own 100-400-message frames through the shared encoder pool at the same time; " +
 		"non-trivial = every case; distinct = hash of (kind, parameters, frames seen)")
-	n := vk.N(20, 240)
+	n := vk.N(20, 60)
 	for ci := 0; ci < n; ci++ {
 		if !vk.Mine(ci) {
 			continue
